@@ -371,6 +371,23 @@ def implied(c, truth):
     lt (x < y), le (x <= y), eq, ne (both symmetric, listed in both orders).  Every way of writing the same test -
     swapped operands, negated operator, taking the else branch - yields the same relations."""
     out = []
+    if c.kind == "call" and len(c.call.args) == 2:
+        # comparisons of non-primitive values go through the operator traits (SeqNr: derived ==, modular <)
+        a, b = c.call.args
+        for nm, rels_t, rels_f in (("PartialEq::eq", "eq", "ne"), ("PartialEq::ne", "ne", "eq")):
+            if call_matches(c.call, (nm,)):
+                r = rels_t if truth else rels_f
+                out += [(r, a, b), (r, b, a)]
+                if r == "eq":
+                    out += [("le", a, b), ("le", b, a)]
+        for nm, lo, hi, strict in (("PartialOrd::lt", a, b, True), ("PartialOrd::le", a, b, False), ("PartialOrd::gt", b, a, True), ("PartialOrd::ge", b, a, False)):
+            if call_matches(c.call, (nm,)):
+                if not truth:
+                    lo, hi, strict = hi, lo, not strict
+                out.append(("le", lo, hi))
+                if strict:
+                    out += [("lt", lo, hi), ("ne", lo, hi), ("ne", hi, lo)]
+        return out
     o = ordering(c, truth)
     if o is not None:
         lo, hi, strict = o
